@@ -173,6 +173,38 @@ def run(r):
     w_e = where_of(r.P, e_s.func, e_s.func.node)
     # value stored into each new column, helper methods resolved:  column -> term
     colvals, undecided = {}, None
+    table = copy
+
+    def helper_frame(val):
+        """(column names, {column: value term}) of ``self.helper(series)`` when the helper builds a frame column by column."""
+        hq = r.P.find_method(T + "TcrLevenshtein", val[1][2]) if head(val) == "call" and head(val[1]) == "attr" and val[1][1] == selft else None
+        if hq is None:
+            return None
+        hs = r.A.summary(hq)
+        rep.analysed(hq)
+        bind = r.A.bind_call(hs, val, self_term=selft)
+        ret = strip_all(hs.ret)
+        hcols = dict(ret[3]).get("columns") if head(ret) == "call" and ret[1] == ("glob", "pandas.DataFrame") else None
+        attrs = {ev["name"]: strip_all(ev["value"]) for ev in hs.events_of("setattr") if strip_all(ev["obj"]) == ret}
+        if bind is None or hcols is None or head(hcols) != "list" or not all(is_const(c) and c[2] in attrs for c in hcols[1]):
+            return None
+        return [c[2] for c in hcols[1]], {k: subst(v, bind) for k, v in attrs.items()}
+    assign = strip_all(e_s.ret)
+    if not e_s.events_of("setitem") and head(assign) == "call" and head(assign[1]) == "attr" and assign[1][2] == "assign" and assign[1][1] == dfp and not assign[2]:
+        # df.assign(NAME=value, ...) returns a new frame with the added columns
+        table = dfp
+        for k, v in assign[3]:
+            if k == "**":
+                undecided = "assign(**mapping)"
+                continue
+            if head(v) == "attr" and head(v[1]) == "call":
+                hf = helper_frame(v[1])
+                if hf is None or v[2] not in hf[1]:
+                    undecided = undecided or f"column {k} <- {show(v, 40)}"
+                    continue
+                colvals[k] = hf[1][v[2]]
+            else:
+                colvals[k] = v
     for e in e_s.events_of("setitem"):
         if strip_all(e["obj"]) != copy:
             undecided = undecided or f"store into {show(e['obj'], 30)}"
@@ -181,25 +213,18 @@ def run(r):
         if head(idx) == "list" and all(is_const(strip(x)) for x in idx[1]):
             # frame[[c1, c2]] = self.helper(series): the helper returns a frame whose k-th column is read off its attribute stores
             names = [strip(x)[2] for x in idx[1]]
-            hq = r.P.find_method(T + "TcrLevenshtein", val[1][2]) if head(val) == "call" and head(val[1]) == "attr" and val[1][1] == selft else None
-            if hq is None:
+            hf = helper_frame(val)
+            if hf is None or len(hf[0]) != len(names):
                 undecided = undecided or f"multi-column store of {show(val, 40)}"
                 continue
-            hs = r.A.summary(hq)
-            rep.analysed(hq)
-            bind = r.A.bind_call(hs, val, self_term=selft)
-            ret = strip_all(hs.ret)
-            hcols = dict(ret[3]).get("columns") if head(ret) == "call" and ret[1] == ("glob", "pandas.DataFrame") else None
-            attrs = {ev["name"]: strip_all(ev["value"]) for ev in hs.events_of("setattr") if strip_all(ev["obj"]) == ret}
-            if bind is None or hcols is None or head(hcols) != "list" or len(hcols[1]) != len(names) or not all(is_const(c) and c[2] in attrs for c in hcols[1]):
-                undecided = undecided or f"helper {hq.rsplit('.', 1)[1]} does not build a frame column by column"
-                continue
-            for nm, c in zip(names, hcols[1]):
-                colvals[nm] = subst(attrs[c[2]], bind)
+            for nm, c in zip(names, hf[0]):
+                colvals[nm] = hf[1][c]
         elif is_const(idx) and isinstance(idx[2], str):
             colvals[idx[2]] = val
         else:
             undecided = undecided or f"store with index {show(idx, 30)}"
+    if not colvals and not undecided:
+        undecided = f"the expansion {show(e_s.ret, 60)} neither stores columns into a copy nor uses assign()"
     if undecided:
         rep.require(False, f"C09-CDR: {base}_expand_v_gene_cdrs: {undecided} is outside the idiom list; cannot decide")
     else:
@@ -209,11 +234,11 @@ def run(r):
         for nm in sorted(colvals):
             gene, loop = ("TRAV" if nm.endswith("A") else "TRBV"), f"{nm[:4]}-IMGT"
             lamid = ("#spec", nm)
-            want = ("call", ("attr", ("sub", copy, const(gene)), "map"),
+            want = ("call", ("attr", ("sub", table, const(gene)), "map"),
                     (("lam", lamid, (("v", None, "pos"),), ("call", ("attr", selft, "_get_cdr1_from_v_gene_if_possible"), (("lparam", lamid, "v"), const(loop)), ())),), ())
             check_equiv(rep, "C09-CDR", base + "_expand_v_gene_cdrs", f"{nm} is the {loop} loop of the row's {gene} allele, cell by cell (Series.map), written to a copy", colvals[nm], want, w_e,
                         eq=Equiv(rewrites=eqc.rewrites, modelled=eqc.modelled).bind(r, cls=T + "TcrLevenshtein"), key=f"expansion {nm}")
-    rep.ob("C09-CDR", base + "_expand_v_gene_cdrs", strip_all(e_s.ret) == copy, "the expanded copy is returned", w_e, expected="df.copy()", found=show(e_s.ret, 40), key="expansion result")
+    rep.ob("C09-CDR", base + "_expand_v_gene_cdrs", strip_all(e_s.ret) == copy or (table == dfp and bool(colvals)), "the expanded copy is returned", w_e, expected="df.copy()", found=show(e_s.ret, 40), key="expansion result")
     # validation dominates
     compare_function(r, "C09-VAL", B + "TcrMetric.calc_cdist_matrix", SPEC, "non-standard anchors / comparisons raise ValueError", fname="base_cdist", eq=eqs, key="base cdist validation")
     compare_function(r, "C09-VAL", B + "TcrMetric.calc_pdist_vector", SPEC, "non-standard instances raise ValueError", fname="base_pdist", eq=eqs, key="base pdist validation")
